@@ -164,7 +164,23 @@ VERBS = ["CWD", "MKD", "RMD", "DELE", "RNFR", "RNTO", "LIST", "MLSD", "MLST", "S
 WSEG = st.sampled_from(["a", "b", "..", "..", "..", ".", "", "f", "u2", "jail", "secret", "..a", "x y", "u1"])
 WPATH = st.tuples(st.sampled_from(["", "/", "//", ""]), st.lists(WSEG, max_size=6), st.sampled_from(["", "/"])).map(
     lambda t: t[0] + "/".join(t[1]) + t[2])
-WIRE = st.tuples(st.sampled_from(["mem", "fs"]), st.lists(st.tuples(st.sampled_from(VERBS), WPATH), min_size=3, max_size=25),
+# per-session state that holds a *real* path (the pending RNFR) meets a change of user: RNFR <existing>, RELOGIN, RNTO
+ACROSS = st.tuples(st.just("RNFR>RELOGIN>RNTO"), st.sampled_from(["f", "/f", "/a/f", "/a", "", "a/../f"]))
+
+
+def _expand(cmds):
+    out = []
+    for verb, arg in cmds:
+        if verb == "RNFR>RELOGIN>RNTO":
+            out += [("RNFR", arg), ("RELOGIN", ""), ("RNTO", "moved")]
+        else:
+            out.append((verb, arg))
+    return out
+
+
+WIRE = st.tuples(st.sampled_from(["mem", "fs"]),
+                 st.lists(st.one_of(st.tuples(st.sampled_from(VERBS), WPATH), st.tuples(st.sampled_from(VERBS), WPATH), ACROSS),
+                          min_size=3, max_size=25).map(_expand),
                  st.sampled_from(["/", "/a", "/a/b"]))
 INSIDE = {"/": DIR, "/a": DIR, "/a/b": DIR, "/a/f": b"inside-file", "/f": b"root-file"}
 CANARY = {"u2": DIR, "u2/secret": b"other user's secret", "outside": b"outside the jail"}
